@@ -647,3 +647,212 @@ Proof.
     + assert (uk_eq (Row c t d i) x = true) by (apply uk_eq_true; symmetry; exact Hk). congruence.
     + assert (pk_eq (Row c t d i) x = true) by (apply pk_eq_true; symmetry; exact Hk). congruence.
 Qed.
+
+(* ---- RUN membership is exactly run_of ------------------------------------------------------------ *)
+Definition FK (s : state) : Prop :=
+  forall r, In r (tags s) -> alive s (r_id r) = true /\ coll_type s (r_coll r) <> None.
+Definition RunM (s : state) : Prop :=
+  (forall x, In x (datasets s) -> coll_type s (d_run x) = Some RUN /\
+       exists d, In (Row (d_run x) (d_type x) d (d_id x)) (tags s)) /\
+  (forall r, In r (tags s) -> coll_type s (r_coll r) = Some RUN -> In (Ds (r_id r) (r_type r) (r_coll r)) (datasets s)).
+Definition J (s : state) : Prop := Ids s /\ FK s /\ RunM s.
+
+Lemma ds_find_in_some : forall l x, In x l -> exists y, ds_find l (d_id x) = Some y.
+Proof.
+  induction l as [|a l IH]; simpl; intros x H; [contradiction|].
+  destruct (d_id a =? d_id x) eqn:E; [eauto|]. destruct H as [->|H]; [rewrite N.eqb_refl in E; discriminate | auto].
+Qed.
+Lemma ds_find_in_some' : forall l x i, In x l -> d_id x = i -> ds_find l i <> None.
+Proof. intros l x i H <-. destruct (ds_find_in_some l x H) as [y ->]. discriminate. Qed.
+
+Lemma alive_iff : forall s i, alive s i = true <-> ds_find (datasets s) i <> None.
+Proof. intros s i; unfold alive. destruct (ds_find (datasets s) i); split; congruence. Qed.
+
+Lemma coll_type_in_filter : forall l c c', coll_type_in (filter (fun p => negb (fst p =? c)) l) c' =
+  if c' =? c then None else coll_type_in l c'.
+Proof.
+  induction l as [|[a k] l IH]; simpl; intros c c'.
+  - destruct (c' =? c); reflexivity.
+  - destruct (a =? c) eqn:E1; simpl.
+    + rewrite IH. destruct (c' =? c) eqn:E2; [reflexivity|].
+      apply N.eqb_eq in E1. subst. rewrite N.eqb_sym, E2. reflexivity.
+    + rewrite IH. destruct (a =? c') eqn:E3; [|reflexivity].
+      apply N.eqb_eq in E3. subst. rewrite E1. reflexivity.
+Qed.
+
+Lemma row_eta : forall r, Row (r_coll r) (r_type r) (r_data r) (r_id r) = r.
+Proof. intros []; reflexivity. Qed.
+
+Lemma fold_assoc_row_alive : forall s c g tg tg', fold_opt (assoc_row s c) tg g = Some tg' ->
+  (forall x, In x tg' -> In x tg \/ (r_coll x = c /\ alive s (r_id x) = true)) /\
+  (forall x, In x tg -> r_coll x <> c -> In x tg').
+Proof.
+  induction g as [|f g IH]; simpl; intros tg tg' H.
+  - inversion H; subst; auto.
+  - unfold assoc_row at 1 in H. destruct (alive s (f_id f)) eqn:A; [|discriminate].
+    destruct (tag_upsert tg (ref_row c f)) as [tg1|] eqn:E; [|discriminate].
+    apply tag_upsert_some in E. destruct E as [-> _]. destruct (IH _ _ H) as [I1 I2]. split.
+    + intros x Hx. destruct (I1 x Hx) as [[<-|H1]|H1]; auto.
+      apply filter_In in H1. tauto.
+    + intros x Hx Hc. apply I2; auto. right. apply filter_In. split; auto.
+      apply negb_true_iff. destruct (pk_eq (ref_row c f) x) eqn:P; auto.
+      apply pk_eq_true in P. unfold pkey, ref_row in P; simpl in P. inversion P. congruence.
+Qed.
+
+Lemma assoc_groups_alive : forall s c refs ts tg st sg tg' st' sg',
+  assoc_groups s c TAGGED refs ts (tg, st, sg) = inl (tg', st', sg') ->
+  (forall x, In x tg' -> In x tg \/ (r_coll x = c /\ alive s (r_id x) = true)) /\
+  (forall x, In x tg -> r_coll x <> c -> In x tg').
+Proof.
+  induction ts as [|t ts IH]; simpl; intros tg st sg tg' st' sg' H.
+  - inversion H; subst; auto.
+  - destruct (negb (has_type s t)); [discriminate|].
+    destruct (fold_opt (assoc_row s c) tg (group refs t)) as [tg1|] eqn:E; [|discriminate].
+    apply fold_assoc_row_alive in E. destruct E as [E1 E2]. destruct (IH _ _ _ _ _ _ H) as [I1 I2]. split.
+    + intros x Hx. destruct (I1 x Hx) as [H1|H1]; auto.
+    + intros x Hx Hc. apply I2; auto.
+Qed.
+
+Lemma disassoc_groups_keep : forall s c refs ts tg tg',
+  disassoc_groups s c TAGGED refs ts tg = inl tg' -> forall x, In x tg -> r_coll x <> c -> In x tg'.
+Proof.
+  induction ts as [|t ts IH]; simpl; intros tg tg' H x Hx Hc.
+  - inversion H; subst; auto.
+  - destruct (negb (has_type s t)); [discriminate|].
+    eapply IH; eauto. apply filter_In. split; auto. apply negb_true_iff, andb_false_iff. left. apply N.eqb_neq; auto.
+Qed.
+
+Lemma changed_J : forall s s', Changed s s' -> J s -> J s'.
+Proof.
+  intros s s' C [I [F [Ra Rb]]]. split; [eapply changed_ids; eauto|].
+  destruct C.
+  - split; [|split]; auto.
+  - (* new collection *)
+    assert (Hct : forall c', coll_type (St ((c, k) :: colls s) (dtypes s) (datasets s) (tags s) (summ_t s) (summ_g s)) c' =
+                         if c =? c' then Some k else coll_type s c') by reflexivity.
+    split; [|split].
+    + intros r Hr. destruct (F r Hr) as [A B]. split; [exact A|]. rewrite Hct. destruct (c =? r_coll r); [discriminate|exact B].
+    + intros x Hx. destruct (Ra x Hx) as [A B]. split; [|exact B]. rewrite Hct.
+      destruct (c =? d_run x) eqn:E; [|exact A]. apply N.eqb_eq in E. subst. congruence.
+    + intros r Hr. rewrite Hct. destruct (c =? r_coll r) eqn:E; [|apply Rb; auto].
+      apply N.eqb_eq in E. subst. destruct (F r Hr) as [_ B]. contradiction.
+  - split; [|split]; auto.
+  - (* insert / import *)
+    apply fold_ds_insert in H0. destruct H0 as [-> [_ Hnew]].
+    apply fold_tag_insert in H1. destruct H1 as [-> _].
+    assert (Hal : forall i, alive s i = true ->
+              alive (St (colls s) (dtypes s) (rev (map (fun r => Ds (r_id r) (r_type r) c) rows) ++ datasets s)
+                        (rev rows ++ tags s) (summ_add_rows c rows0 (summ_t s)) (summ_add_govs c rows0 (summ_g s))) i = true).
+    { intros i A. apply alive_iff in A. apply alive_iff. simpl.
+      destruct (ds_find (datasets s) i) as [y|] eqn:E; [|congruence].
+      apply ds_find_some in E. destruct E as [E1 E2].
+      eapply ds_find_in_some'; [apply in_or_app; right; exact E1 | exact E2]. }
+    split; [|split].
+    + intros r Hr. simpl in Hr. apply in_app_or in Hr. destruct Hr as [Hr|Hr].
+      * apply in_rev in Hr. split.
+        -- apply alive_iff. simpl. eapply ds_find_in_some' with (x := Ds (r_id r) (r_type r) c); [|reflexivity].
+           apply in_or_app; left. apply in_rev. rewrite rev_involutive. apply in_map_iff. exists r; auto.
+        -- rewrite (H2 r Hr). unfold coll_type in *. simpl. congruence.
+      * destruct (F r Hr) as [A B]. split; [apply Hal; auto | exact B].
+    + intros x Hx. simpl in Hx. apply in_app_or in Hx. destruct Hx as [Hx|Hx].
+      * apply in_rev in Hx. apply in_map_iff in Hx. destruct Hx as [r [<- Hr]]. simpl. split; [exact H|].
+        exists (r_data r). apply in_or_app; left. apply in_rev. rewrite rev_involutive.
+        rewrite <- (H2 r Hr). rewrite row_eta. exact Hr.
+      * destruct (Ra x Hx) as [A [d B]]. split; [exact A|]. exists d. simpl. apply in_or_app; right; exact B.
+    + intros r Hr HR. simpl in Hr. apply in_app_or in Hr. simpl. destruct Hr as [Hr|Hr].
+      * apply in_rev in Hr. apply in_or_app; left. apply in_rev. rewrite rev_involutive.
+        apply in_map_iff. exists r. rewrite (H2 r Hr). auto.
+      * apply in_or_app; right. apply Rb; auto.
+  - (* associate *)
+    apply assoc_groups_alive in H0. destruct H0 as [A1 A2]. split; [|split].
+    + intros r Hr. simpl in Hr. destruct (A1 r Hr) as [H1|[H1 H2]]; [apply F; auto|].
+      split; [exact H2|]. simpl. unfold coll_type in *. simpl. rewrite H1. congruence.
+    + intros x Hx. destruct (Ra x Hx) as [A [d B]]. split; [exact A|]. exists d. simpl. apply A2; auto.
+      simpl. intros E. rewrite E in A. congruence.
+    + intros r Hr HR. simpl in *. destruct (A1 r Hr) as [H1|[H1 H2]]; [apply Rb; auto|].
+      rewrite H1 in HR. unfold coll_type in *. simpl in HR. congruence.
+  - (* disassociate *)
+    split; [|split].
+    + intros r Hr. simpl in Hr. apply (disassoc_groups_incl _ _ _ _ _ _ H0) in Hr. apply F; auto.
+    + intros x Hx. destruct (Ra x Hx) as [A [d B]]. split; [exact A|]. exists d. simpl.
+      eapply disassoc_groups_keep; eauto. simpl. intros E. rewrite E in A. congruence.
+    + intros r Hr HR. simpl in *. apply (disassoc_groups_incl _ _ _ _ _ _ H0) in Hr. apply Rb; auto.
+  - (* remove datasets *)
+    split; [|split].
+    + intros r Hr. simpl in Hr. apply filter_In in Hr. destruct Hr as [Hr Hm]. destruct (F r Hr) as [A B].
+      split; [|exact B]. apply alive_iff in A. apply alive_iff. simpl.
+      destruct (ds_find (datasets s) (r_id r)) as [y|] eqn:E; [|congruence]. apply ds_find_some in E. destruct E as [E1 E2].
+      eapply ds_find_in_some'; [|exact E2]. apply filter_In. split; auto. rewrite E2. exact Hm.
+    + intros x Hx. simpl in Hx. apply filter_In in Hx. destruct Hx as [Hx Hm]. destruct (Ra x Hx) as [A [d B]].
+      split; [exact A|]. exists d. simpl. apply filter_In. split; auto.
+    + intros r Hr HR. simpl in *. apply filter_In in Hr. destruct Hr as [Hr Hm]. apply filter_In. split; [apply Rb; auto|exact Hm].
+  - (* remove collection *)
+    assert (Hct : forall c', coll_type (St (filter (fun p => negb (fst p =? c)) (colls s)) (dtypes s)
+                  (filter (fun x => negb (d_run x =? c)) (datasets s))
+                  (filter (fun x => negb ((r_coll x =? c) ||
+                     match ds_find (datasets s) (r_id x) with Some y => d_run y =? c | None => false end)) (tags s))
+                  (filter (fun p => negb (fst p =? c)) (summ_t s))
+                  (filter (fun p => negb (fst p =? c)) (summ_g s))) c' = if c' =? c then None else coll_type s c').
+    { intros c'. unfold coll_type. simpl. apply coll_type_in_filter. }
+    split; [|split].
+    + intros r Hr. simpl in Hr. apply filter_In in Hr. destruct Hr as [Hr Hm].
+      apply negb_true_iff, orb_false_iff in Hm. destruct Hm as [M1 M2]. destruct (F r Hr) as [A B]. split.
+      * apply alive_iff in A. apply alive_iff. simpl.
+        destruct (ds_find (datasets s) (r_id r)) as [y|] eqn:E; [|congruence]. apply ds_find_some in E. destruct E as [E1 E2].
+        eapply ds_find_in_some'; [|exact E2]. apply filter_In. split; auto. rewrite M2. reflexivity.
+      * rewrite Hct. simpl. rewrite M1. exact B.
+    + intros x Hx. simpl in Hx. apply filter_In in Hx. destruct Hx as [Hx Hm]. destruct (Ra x Hx) as [A [d B]].
+      apply negb_true_iff in Hm. split.
+      * rewrite Hct. rewrite Hm. exact A.
+      * exists d. simpl. apply filter_In. split; auto. simpl. rewrite Hm. simpl.
+        rewrite (ds_find_in _ _ I Hx). rewrite Hm. reflexivity.
+    + intros r Hr HR. simpl in Hr. apply filter_In in Hr. destruct Hr as [Hr Hm].
+      apply negb_true_iff, orb_false_iff in Hm. destruct Hm as [M1 M2]. rewrite Hct in HR. simpl in HR. rewrite M1 in HR.
+      simpl. apply filter_In. split; [apply Rb; auto|]. simpl. rewrite M1. reflexivity.
+Qed.
+
+Lemma J_run : forall h, J (run h).
+Proof.
+  apply reach_ind.
+  - split; [constructor|]. split; [intros r []|]. split; [intros x []|intros r []].
+  - intros; eapply changed_J; eauto using step_changed.
+Qed.
+
+(* every row of a RUN collection belongs to a dataset whose run it is, and every dataset sits in its run *)
+Lemma run_membership_p : forall h c i,
+  coll_type (run h) c = Some RUN ->
+  ((exists t d, In (Row c t d i) (tags (run h))) <-> run_of (run h) i = Some c).
+Proof.
+  intros h c i HR. destruct (J_run h) as [I [F [Ra Rb]]]. split.
+  - intros [t [d H]]. specialize (Rb _ H HR). simpl in Rb. unfold run_of.
+    pose proof (ds_find_in _ _ I Rb) as Q. simpl in Q. rewrite Q. reflexivity.
+  - unfold run_of. destruct (ds_find (datasets (run h)) i) as [x|] eqn:E; [|discriminate].
+    simpl. intros Hx. inversion Hx; subst. apply ds_find_some in E. destruct E as [E1 E2]. subst.
+    destruct (Ra x E1) as [_ [d B]]. eauto.
+Qed.
+
+(* foreign keys: every tag row refers to a live dataset and an existing collection *)
+Lemma tags_refer_to_live_p : forall h r, In r (tags (run h)) ->
+  alive (run h) (r_id r) = true /\ coll_type (run h) (r_coll r) <> None.
+Proof. intros h r H. destruct (J_run h) as [_ [F _]]. auto. Qed.
+
+(* ---- the abstract map (collection, type, data id) -> dataset is well defined -------------------------- *)
+Lemma find_spec_p : forall h c t d i,
+  find (run h) c t d = Some i <-> In (Row c t d i) (tags (run h)).
+Proof.
+  intros h c t d i. unfold find.
+  set (p := fun x => (r_coll x =? c) && (r_type x =? t) && (r_data x =? d)).
+  assert (Hp : forall x, p x = true <-> r_coll x = c /\ r_type x = t /\ r_data x = d).
+  { intros x. unfold p. rewrite !andb_true_iff, !N.eqb_eq. tauto. }
+  split.
+  - destruct (filter p (tags (run h))) as [|x l] eqn:E; [discriminate|]. intros H. inversion H; subst.
+    assert (In x (filter p (tags (run h)))) as Hx by (rewrite E; left; reflexivity).
+    apply filter_In in Hx. destruct Hx as [Hx Hk]. apply Hp in Hk. destruct Hk as [<- [<- <-]].
+    rewrite row_eta. exact Hx.
+  - intros H. assert (In (Row c t d i) (filter p (tags (run h)))) as Hf.
+    { apply filter_In. split; auto. apply Hp. simpl. auto. }
+    destruct (filter p (tags (run h))) as [|x l] eqn:E; [contradiction|].
+    assert (In x (filter p (tags (run h)))) as Hx by (rewrite E; left; reflexivity).
+    apply filter_In in Hx. destruct Hx as [Hx Hk]. apply Hp in Hk. destruct Hk as [K1 [K2 K3]].
+    f_equal. eapply one_dataset_per_key_p; [|exact H]. rewrite <- K1, <- K2, <- K3, row_eta. exact Hx.
+Qed.
